@@ -19,7 +19,7 @@ HARNESSES = [
          files=[("pkg/opdb/sqlite/zz_verif_c12_sq_test.go", _F + "c12_sqlite_test.go")]),
 ]
 # repaired = /repo HEAD; no C12 finding is open, so a regression to any old defect is a VIOLATION
-VARIANTS = ["repaired"]
+VARIANTS = ["repaired", "d_giveup"]
 MODEL_NEEDS_IMPL = True
 RULE = ("one case = one whole history over <=6 sessions on a fresh component with a scheduler-controlled opdb fake: "
         "new (bring-up with allocator answers; pool/static/no address per family, bound/released-v4/approved/created flags "
@@ -105,7 +105,15 @@ def _history(rng, proto, nops, nsess):
             tick += 1
         elif r < 0.62 and live:
             i = rng.choice(live)
-            ops.append(("relf:%d" if rng.random() < 0.06 else "rel:%d") % i)
+            if rng.random() < 0.06:
+                ops.append("relf:%d" % i)
+                k = rng.random()
+                if k < 0.4:
+                    ops.append("delretry:%d:ok" % i)
+                elif k < 0.6:
+                    ops += ["delretry:%d:fail" % i, "delretry:%d:ok" % i]
+            else:
+                ops.append("rel:%d" % i)
             live.remove(i)
             store.discard(i)
             tick += 1
@@ -198,10 +206,13 @@ def _structured(proto):
         [n(0), "ck:0", "done:0", "ck2:0", "relstop:0:p:d", "done:3"],
         [n(0), n(1), "ck:0", "ck:1", "done:1", "relstop:0:p:d", "rel:0", "crash:p"],
         [n(0), "cks:0", "ck:0", "poison:1", "relstop:0:e:d"],
-        # release whose checkpoint Delete fails with a transient Store error
+        # release whose checkpoint Delete fails: stop while the repetition is outstanding / after it succeeded
         [n(0), "cks:0", "relf:0", "crash:p"],
-        [n(0), "ck:0", "done:0", "relf:0", "crash:e", n(1)],
-        [n(0), "ck:0", "relf:0", "done:0", "crash:p"],
+        [n(0), "cks:0", "relf:0", "delretry:0:ok", "crash:p"],
+        [n(0), "ck:0", "done:0", "relf:0", "delretry:0:fail", "crash:e", n(1)],
+        [n(0), "ck:0", "relf:0", "done:0", "delretry:0:fail", "delretry:0:ok", "delretry:0:ok", "crash:p"],
+        [n(0), "cks:0", "relf:0", n(1), "cks:1", "crash:p"],
+        [n(0), "cks:0", "relf:0", n(1), "cks:1", "delretry:0:ok", "crash:p", n(2)],
         [n(0), "ck:0", "done:0", "crash:p", "poison:1", "rel:0", "done:1", "crash:p"],
         [n(0), "ck:0", "done:0", "crash:p", "ck2:0", "done:3", "done:2", "done:1", "crash:e"],
     ]
@@ -279,12 +290,12 @@ def _sq_cases(rng, n):
 
 def gen_cases(rng, tier, budget):
     cases = _ow_cases(rng, 150 if tier == "quick" else 1500) + _sq_cases(rng, 12 if tier == "quick" else 150)
-    cases.append("race %d" % (50000 if tier == "quick" else 400000))
+    cases.append("race %d" % (25000 if tier == "quick" else 400000))
     for proto in ("ipoe", "pppoe"):
         for h in _structured(proto):
             for cfg in ("4 4 1", "2 2 1"):
                 cases.append("%s %s %s" % (proto, cfg, " ".join(h)))
-    n = budget or (1400 if tier == "quick" else 12000)
+    n = budget or (900 if tier == "quick" else 12000)
     for k in range(n):
         proto = "ipoe" if k % 2 == 0 else "pppoe"
         n4, n6, kpd = rng.choice([2, 3, 4, 6]), rng.choice([2, 3, 4]), rng.choice([1, 2])
@@ -330,9 +341,12 @@ def _monitor(case, impl):
     released, live = set(), {}
     for o, s in zip(ops, segs):
         a = o.split(":")
-        if (a[0] in ("rel", "relf") and s.startswith("rel")) or (a[0] == "ckrel" and s.startswith("ckrel")):
+        if (a[0] == "rel" and s.startswith("rel")) or (a[0] == "ckrel" and s.startswith("ckrel")) or (
+                a[0] == "delretry" and s.startswith("delretry sd")):
             released.add(int(a[1]))
             live.pop(int(a[1]), None)
+        elif a[0] == "relf" and s.startswith("rel"):
+            live.pop(int(a[1]), None)        # released in memory; durable only when a delete repetition succeeded
         elif a[0] in ("crash", "relstop"):
             live = _sessions(_field(s, "live"))
             back = sorted(released & set(live))
@@ -404,7 +418,9 @@ def classify(case, impl, model):
 
 
 def signature(case, impl, models):
-    return None          # no open finding
+    if impl == models.get("d_giveup") and "giveup gaveup" in impl:
+        return "delete-retry-gives-up/%s" % route(case)
+    return None
 
 
 def nontrivial(case, impl):
